@@ -62,6 +62,8 @@ def run(ctx):
     for i in range(n):
         g, lits = hostile_cfg(rng)
         cases.append(("combined", i, g, cfggen.lex_part(g) + "\n" + syntax_text(g), ["-a"]))
+        if i % 2 == 0:
+            cases.append(("combinedv", i, g, cfggen.lex_part(g) + "\n" + syntax_text(g), ["-a", "-v"]))
         cases.append(("nolexer", i, g, syntax_text(g), ["-a", "-no_lexer"]))
         cases.append(("lexonly", i, g, cfggen.lex_part(g), []))
     total = 0
@@ -132,12 +134,16 @@ def run(ctx):
                 want.add(lit_content(t) if t[0] in '"`' else t)
             if used and cfgname != "nolexer" and t[0] not in '"`':
                 want.add(t)
+        if cfgname != "nolexer":
+            want |= {"zq9", "aq7"}
+        if why is None and cfgname != "lexonly" and not want <= set(gen_terms):
+            why = "terminals of the grammar missing from the GENERATED token map: %s" % sorted(want - set(gen_terms))
         if why is None and cfgname != "lexonly" and not want <= set(terms):
             why = "terminals of the grammar missing from the numbering: %s" % sorted(want - set(terms))
         # lexer emits these numbers
         if why is None and cfgname != "nolexer":
             lb = bins.get((name, "lexcmd"))
-            probe = [(i, s) for i, s in enumerate(terms) if i >= 2 and s != "empty" and s != "error" and (cfgname == "combined" or s in dump["lexTokenIds"])]
+            probe = [(i, s) for i, s in enumerate(terms) if i >= 2 and s != "empty" and s != "error" and (cfgname.startswith("combined") or s in dump["lexTokenIds"])]
             if lb and probe:
                 res = subprocess.run([lb], input="".join("N%s S1\n" % s.encode("utf-8").hex() for (_, s) in probe),
                                      capture_output=True, text=True).stdout.split("\n")
